@@ -18,11 +18,17 @@ for d in sorted(glob.glob('/verif/seeded/C*')):
         elif cur and line.startswith('OK') and not cur[1].startswith('caught'): cur[1] = 'MISSED: ' + line.strip()
         elif cur and line.startswith('INCONCLUSIVE') and not cur[1].startswith('caught'): cur[1] = 'inconclusive: ' + line.strip()
     checks = {}
+    first = {}
     for name, outcome, rerun in runs:
-        if name in checks and checks[name] != outcome:
-            checks[name] = 'first run ' + checks[name].split(':')[0] + '; after the check was strengthened: ' + outcome
+        cls = outcome.split(':')[0]
+        if name not in first:
+            first[name] = cls
+        if outcome == 'no result' and name in checks:
+            continue
+        if first[name] == 'MISSED' and cls == 'caught':
+            checks[name] = 'first run MISSED; after the check was strengthened: ' + outcome
         else:
-            checks[name] = outcome
+            checks[name] = outcome + (' (re-run on the final /repo HEAD)' if rerun else '')
     def grab(pat):
         m = re.search(pat, log); return m.group(1) if m else None
     meta = {
